@@ -223,9 +223,11 @@ type scaseJ struct {
 
 func scase(c scaseJ) string {
 	res := c.R.toHTTP(c.Meth, nil)
-	return fmt.Sprintf("{| s_meth := %s; s_resp := %s; s_header_only := %s; s_should_chunk := %s; s_sse := %s |}",
-		coqfmt.Str(c.Meth), coqResp(c.R), coqfmt.Bool(hook.IsHeaderOnlySpec(res)), coqfmt.Bool(hook.ShouldChunk(res)),
-		coqfmt.Bool(hook.IsTextEventStream(res)))
+	ho, sc, se := hook.IsHeaderOnlySpec(res), hook.ShouldChunk(res), hook.IsTextEventStream(res)
+	out := fmt.Sprintf("{| s_meth := %s; s_resp := %s; s_header_only := %s; s_should_chunk := %s; s_sse := %s |}",
+		coqfmt.Str(c.Meth), coqResp(c.R), coqfmt.Bool(ho), coqfmt.Bool(sc), coqfmt.Bool(se))
+	note(out, ho || sc || se)
+	return out
 }
 
 // ---------------------------------------------------------------- (h)
@@ -255,8 +257,10 @@ func hcase(c hcaseJ) string {
 			break
 		}
 	}
-	return fmt.Sprintf("{| h_meth := %s; h_resp := %s; h_order := %s; h_writes := %s |}",
+	out := fmt.Sprintf("{| h_meth := %s; h_resp := %s; h_order := %s; h_writes := %s |}",
 		coqfmt.Str(c.Meth), coqResp(c.R), coqfmt.StrList(order), coqfmt.StrList(rec.writes))
+	note(out, len(c.R.Hdr) > 0 || len(c.R.Trailer) > 0)
+	return out
 }
 
 // ---------------------------------------------------------------- (f)
@@ -289,8 +293,14 @@ func fcase(c fcaseJ) (string, error) {
 	if err != nil {
 		return "", err
 	}
-	return fmt.Sprintf("{| f_pats := %s; f_writes := %s; f_flags := %s; f_events := %s |}", coqPats(c.Pats), coqfmt.StrList(c.Writes),
-		coqBools(flags), coqfmt.Bool(c.Events)), nil
+	out := fmt.Sprintf("{| f_pats := %s; f_writes := %s; f_flags := %s; f_events := %s |}", coqPats(c.Pats), coqfmt.StrList(c.Writes),
+		coqBools(flags), coqfmt.Bool(c.Events))
+	anyFlush := false
+	for _, fl := range flags {
+		anyFlush = anyFlush || fl
+	}
+	note(out, anyFlush)
+	return out, nil
 }
 
 // ---------------------------------------------------------------- (g)
@@ -333,8 +343,10 @@ func gcase(c gcaseJ) (string, error) {
 	// the model takes the reads the body actually delivered; what was never read stays as one more piece
 	rj := c.R
 	rj.Body = append(append([]string(nil), body.got...), body.pieces...)
-	return fmt.Sprintf("{| g_meth := %s; g_resp := %s; g_pats := %s; g_writes := %s; g_flags := %s; g_err := %s |}",
-		coqfmt.Str(c.Meth), coqResp(rj), coqPats(c.Pats), cstrList(rec.writes), coqBools(fw.flags), coqfmt.Bool(err != nil)), nil
+	out := fmt.Sprintf("{| g_meth := %s; g_resp := %s; g_pats := %s; g_writes := %s; g_flags := %s; g_err := %s |}",
+		coqfmt.Str(c.Meth), coqResp(rj), coqPats(c.Pats), cstrList(rec.writes), coqBools(fw.flags), coqfmt.Bool(err != nil))
+	note(out, len(strings.Join(rj.Body, "")) > 0)
+	return out, nil
 }
 
 // ---------------------------------------------------------------- shards
@@ -397,6 +409,19 @@ func parsePats(s string) [][2]byte {
 	return out
 }
 
+// distinct non-trivial cases, measured: a case counts once (by its rendered text) and only if it is
+// non-trivial by the rule stated in the evidence
+var seenCases = map[string]bool{}
+var nontrivialCount int
+
+func note(rendered string, nontrivial bool) {
+	if !nontrivial || seenCases[rendered] {
+		return
+	}
+	seenCases[rendered] = true
+	nontrivialCount++
+}
+
 type meta struct {
 	Shards      []string       `json:"shards"`
 	ShardSize   int            `json:"shard_size"`
@@ -407,6 +432,7 @@ type meta struct {
 	Samples     map[string]any `json:"samples"`
 	E2E         map[string]any `json:"e2e"`
 	HookProblem string         `json:"hook_problem,omitempty"`
+	Nontrivial  int            `json:"nontrivial"`
 }
 
 func main() {
@@ -699,6 +725,7 @@ func main() {
 }
 
 func writeMeta(dir string, m meta) {
+	m.Nontrivial = nontrivialCount
 	keys := make([]string, 0, len(m.Counts))
 	for k := range m.Counts {
 		keys = append(keys, k)
